@@ -17,6 +17,7 @@ type C18Case struct {
 	UseCB bool     `json:"use_cb"`           // LMTPData with callback / Data without
 	Plain bool     `json:"plain"`            // server backend without per-recipient support (every recipient gets the single result)
 	NilCB bool     `json:"nil_cb,omitempty"` // without callback: LMTPData(nil) instead of Data()
+	Alt   bool     `json:"alt,omitempty"`    // odd-numbered transactions use the other way (callback <-> none)
 }
 
 func c18Verdict(ch byte, rcpt string) error {
@@ -24,7 +25,8 @@ func c18Verdict(ch byte, rcpt string) error {
 	case 't':
 		return &smtp.SMTPError{Code: 451, EnhancedCode: smtp.EnhancedCode{4, 2, 1}, Message: "later " + rcpt}
 	case 'p':
-		return &smtp.SMTPError{Code: 550, EnhancedCode: smtp.EnhancedCode{5, 2, 2}, Message: "never " + rcpt}
+		// (the enhanced code's class need not match the reply code's: the recipient's own reply is what the backend said)
+		return &smtp.SMTPError{Code: 550, EnhancedCode: smtp.EnhancedCode{4, 2, 2}, Message: "never " + rcpt}
 	}
 	return nil
 }
@@ -34,6 +36,9 @@ func evalC18(c C18Case) *h.Finding {
 	desc := fmt.Sprintf("transactions=%v callback=%t plainbackend=%t", c.Tx, c.UseCB, c.Plain)
 	if c.NilCB {
 		desc += " (LMTPData(nil))"
+	}
+	if c.Alt {
+		desc += " (alternating: every second transaction the other way)"
 	}
 	cfg := h.Config{LMTP: true}
 	be := &h.Backend{LMTPSess: !c.Plain}
@@ -80,6 +85,12 @@ func evalC18(c C18Case) *h.Finding {
 		h.WithRealServer(cfg, be, false, func(cs *h.CS) {
 			cl := cs.Client
 			for ti, tx := range c.Tx {
+				// Alt: the way of (not) supplying a callback alternates from transaction to transaction
+				useCB, nilCB := c.UseCB, c.NilCB
+				if c.Alt && ti%2 == 1 {
+					useCB = !useCB
+					nilCB = false
+				}
 				if err := cl.Mail(fmt.Sprintf("ok-sender%d@a.example", ti), nil); err != nil {
 					f = h.F("c18-mail", "%s: Mail in transaction %d: %v", desc, ti, err)
 					return
@@ -129,9 +140,9 @@ func evalC18(c C18Case) *h.Finding {
 					Close() error
 				}
 				var err error
-				if c.UseCB {
+				if useCB {
 					w, err = cl.LMTPData(func(rcpt string, st *smtp.SMTPError) { calls = append(calls, got{rcpt, st}) })
-				} else if c.NilCB {
+				} else if nilCB {
 					w, err = cl.LMTPData(nil)
 				} else {
 					w, err = cl.Data()
@@ -142,7 +153,7 @@ func evalC18(c C18Case) *h.Finding {
 				}
 				fmt.Fprintf(w, "message of transaction %d\r\n", ti)
 				cerr := w.Close()
-				if c.UseCB {
+				if useCB {
 					if cerr != nil {
 						f = h.F("c18-close", "%s: Close in transaction %d returned %v although the callback reports refusals", desc, ti, cerr)
 						return
@@ -210,7 +221,7 @@ func C18(tier string) int {
 	if tier == "thorough" {
 		maxTx = 3
 	}
-	run.Rule = fmt.Sprintf("1..%d consecutive LMTP transactions on one client connection x 1..3 recipients each x every recipient in {refused at RCPT, accepted+ok, accepted+4xx, accepted+5xx} x {LMTPData with callback, Data() without, LMTPData(nil)} x server backend {per-recipient statuses (set before/after the message is read), single result}; real client <-> real server in a synctest bubble (a client blocked on a reply that never comes is a runtime-detected deadlock). Distinct by construction; non-trivial = more than one transaction or a refusal. Oracle: callback exactly once per recipient accepted in THIS transaction, in order, with that recipient's own reply; Close returns after exactly those replies (a following NOOP is in step); without callback a refusal comes back from Close. In addition a SCRIPTED LMTP server that accepts recipients with 250, 251 or 252 (or refuses with 550): all recipient lists of <=3 over {250,251,252,550} x all final verdict vectors x {callback, none} x a second transaction.", maxTx)
+	run.Rule = fmt.Sprintf("1..%d consecutive LMTP transactions on one client connection x 1..3 recipients each x every recipient in {refused at RCPT, accepted+ok, accepted+4xx, accepted+5xx} x {LMTPData with callback, Data() without, LMTPData(nil), alternating from transaction to transaction} x server backend {per-recipient statuses (set before/after the message is read), single result}; real client <-> real server in a synctest bubble (a client blocked on a reply that never comes is a runtime-detected deadlock). Distinct by construction; non-trivial = more than one transaction or a refusal. Oracle: callback exactly once per recipient accepted in THIS transaction, in order, with that recipient's own reply; Close returns after exactly those replies (a following NOOP is in step); without callback a refusal comes back from Close. In addition a SCRIPTED LMTP server that accepts recipients with 250, 251 or 252 (or refuses with 550): all recipient lists of <=3 over {250,251,252,550} x all final verdict vectors x {callback, none} x a second transaction.", maxTx)
 	var txs []string
 	enumStrings([]byte("rotp"), 3, func(s []byte) {
 		if len(s) > 0 {
@@ -226,6 +237,9 @@ func C18(tier string) int {
 					cases = append(cases, C18Case{Tx: append([]string(nil), cur...), UseCB: cb, Plain: plain})
 					if !cb {
 						cases = append(cases, C18Case{Tx: append([]string(nil), cur...), Plain: plain, NilCB: true})
+					}
+					if len(cur) > 1 {
+						cases = append(cases, C18Case{Tx: append([]string(nil), cur...), UseCB: cb, Plain: plain, Alt: true})
 					}
 				}
 			}
